@@ -26,6 +26,7 @@ def one(sid):
     finally:
         import shutil
         shutil.rmtree(d, ignore_errors=True)
+        shutil.rmtree(os.path.join(V, ".work", "scratch", os.path.basename(d)), ignore_errors=True)
 
 
 if __name__ == "__main__":
